@@ -157,11 +157,21 @@ def rebuild_and_copy(ctx, T):
             ctx.ok('copy-mutation-isolated')
         cp2 = dt.copy()
         info_cp2 = cp2.export_datatype()
-        mutate(dt)
+        nmut = mutate(dt)
         if cp2.export_datatype() != info_cp2:
             ctx.finding(f'copy:mutation-visible-on-copy:{T["k"]}', case, 'mutating the original changed the copy')
         else:
             ctx.ok('copy-mutation-isolated')
+        # the description is a function of the current state: after the properties of (nested) members were changed it
+        # shows the new ones - as the description of a copy made now does (a copy is not made through the description)
+        try:
+            now1, now2 = dt.export_datatype(), dt.copy().export_datatype()
+            if now1 != now2:
+                ctx.finding(f'export:stale-after-mutation:{T["k"]}', case, f'after {nmut} property changes: {now1!r} vs a copy made now {now2!r}'[:400])
+            else:
+                ctx.ok('export-follows-mutation')
+        except Exception as e:   # noqa
+            ctx.label(f'export-after-mutation-raises:{type(e).__name__}')
 
 
 def _nanrepr(lst):
@@ -383,6 +393,12 @@ def convenience_types(ctx):
             ('limits', LimitsType(FloatRange(0, 10)), [(1, 2), (2, 1), (0, 10), (-1, 3), (1,), 'ab'])):
         ctx.ev()
         cp = dt.copy()
+        mine = {id(o) for o in walk(dt)}
+        shared = [type(o).__name__ for o in walk(cp) if id(o) in mine]
+        if shared:
+            ctx.finding(f'copy:shares-object:{shared[0]}:{name}', {'kind': 'convenience'}, repr(shared))
+        else:
+            ctx.ok('copy-no-shared-object')
         if cp.export_datatype() != dt.export_datatype():
             ctx.finding(f'copy:datainfo-differs:{name}', {'kind': 'convenience'}, '')
         for x in probes:
